@@ -1,1 +1,827 @@
-//! C20 harnesses (see /verif/tools/HARNESS_GUIDE.md).
+//! C20 — composite analytics terminate within range and respect their defining relations.
+//!
+//! Stubs (part of the claim, DESIGN 1.1): the correlation used by `half_life` and the aggregates used by
+//! `winsorize` are replaced by *recording oracles*. A trait default method can only be stubbed by a method of a
+//! local blanket-implemented trait with the same generic parameter list, hence `StubAgg` / `StubVecAgg`.
+//!
+//!   * `c20_half_life_*`  the Pearson correlation is replaced by `table[lag]` (lag recovered from the leading
+//!                        nulls of the shifted argument; NaN beyond the series), `table` symbolic:
+//!                        (any)    arbitrary table incl. NaN/inf: terminates (unwinding assertions are violations
+//!                                 for this property), no panic, result in 0..=N-1, 0 only for N < 2;
+//!                        (first)  table above 0.5 exactly up to lag L* and strictly below afterwards:
+//!                                 result == min(L*+1, N-1);
+//!                        (tie)    the same with "not above" = `<= 0.5 or NaN` after L*, L* restricted to
+//!                                 {0,1,2,4,8} so that the bisection only ever moves its upper end;
+//!                        (ramp)   no stub: `half_life` of the concrete ramp 0,1,..,N-1 (native witness).
+//!   * `c20_winsorize_*`  the bound computations are recorders that assert their arguments and return symbolic
+//!                        bounds; the harness asserts clip semantics w.r.t. the documented interval.
+//!   * `c20_rank_*`       two series with the same order relation have identical `vrank` outputs;
+//!   * `c20_spearman_*`   `vcorr(.., Spearman)` hands exactly the two rank vectors and min_periods to Pearson
+//!                        and returns its result (recorder stub).
+use tea_agg::{QuantileMethod, VecAggValidExt};
+use tea_core::prelude::*;
+use tea_map::{MapValidBasic, MapValidVec};
+use tevec::agg::{AggValidFinal, CorrMethod};
+use tevec::map::{MapValidFinal, WinsorizeMethod};
+
+use crate::util::*;
+
+pub const TMAX: usize = 16;
+
+/// Harnesses that depend on an oracle stub are meaningless in a native replay (Kani stubs do not exist there):
+/// they return at once, so that a native run can never "confirm" a counterexample it did not execute. Native
+/// evidence for half_life comes from the `c20_half_life_witness_*` harnesses.
+macro_rules! native_inert {
+    () => {
+        if cfg!(feature = "playback") {
+            return;
+        }
+    };
+}
+
+// ---- oracle state (Kani harnesses are single-threaded; native replays run with --test-threads 1) ----------
+pub static mut TABLE: [f64; TMAX] = [0.0; TMAX];
+pub static mut SERIES_LEN: usize = 0;
+pub static mut EXPECT_MP: usize = 0;
+pub static mut CALLS: usize = 0;
+// hand-over from the `vshift` recorder to the correlation oracle
+pub static mut PENDING: bool = false;
+pub static mut PENDING_LAG: i32 = 0;
+// recorder for the Spearman harness
+pub static mut REC_A: [f64; TMAX] = [0.0; TMAX];
+pub static mut REC_B: [f64; TMAX] = [0.0; TMAX];
+pub static mut REC_LEN_A: usize = 0;
+pub static mut REC_LEN_B: usize = 0;
+pub static mut REC_MP: usize = 0;
+pub static mut REC_RET: f64 = 0.0;
+// expectations / answers of the winsorize recorders
+pub static mut W_DATA: [f64; TMAX] = [0.0; TMAX];
+pub static mut W_LEN: usize = 0;
+pub static mut W_Q: f64 = 0.0; // expected first quantile argument
+pub static mut W_LO: f64 = 0.0; // answer to the first bound query (q-quantile / median / mean)
+pub static mut W_HI: f64 = 0.0; // answer to the second bound query (1-q quantile / MAD / variance)
+
+/// same float, NaN == NaN
+pub fn same_f64(a: f64, b: f64) -> bool {
+    if a.is_nan() { b.is_nan() } else { a == b }
+}
+
+/// Stand-ins for default methods of `tea_core::prelude::AggValidBasic<T>` (same generic lists).
+pub trait StubAgg<T: IsNone>: IntoIterator<Item = T> + Sized {
+    /// lag oracle for `half_life`: `other` is `self` shifted right by `lag` positions with null fill.
+    fn vcorr_pearson_lag_oracle<O, V2: IntoIterator<Item = T2>, T2: IsNone>(self, other: V2, min_periods: usize) -> O
+    where
+        T::Inner: Number,
+        T2::Inner: Number,
+        f64: Cast<O>,
+    {
+        let mut lag = 0usize;
+        let mut total = 0usize;
+        let mut leading = true;
+        for v in other {
+            if leading && v.is_none() {
+                lag += 1;
+            } else {
+                leading = false;
+            }
+            total += 1;
+        }
+        let (len, mp) = unsafe { (SERIES_LEN, EXPECT_MP) };
+        assert!(total == len, "half_life correlates against a shifted copy as long as the series");
+        assert!(lag >= 1, "half_life never asks for the lag-0 autocorrelation");
+        assert!(min_periods == mp, "half_life passes min_periods (default len/2) to the correlation");
+        unsafe {
+            CALLS += 1;
+        }
+        let c = if lag < len && lag < TMAX { unsafe { TABLE[lag] } } else { f64::NAN };
+        c.cast()
+    }
+
+    /// lag oracle for `half_life` when `vshift` is replaced by `StubMap::vshift_recorder` as well: the lag is
+    /// the one recorded by the shift that produced `other`.
+    fn vcorr_pearson_pending_oracle<O, V2: IntoIterator<Item = T2>, T2: IsNone>(self, other: V2, min_periods: usize) -> O
+    where
+        T::Inner: Number,
+        T2::Inner: Number,
+        f64: Cast<O>,
+    {
+        let _ = other;
+        let (len, mp, pending, n) = unsafe { (SERIES_LEN, EXPECT_MP, PENDING, PENDING_LAG) };
+        assert!(pending, "half_life correlates the series with a freshly shifted copy of itself");
+        assert!(n >= 1, "half_life never asks for the autocorrelation at lag 0 or a negative lag");
+        assert!(min_periods == mp, "half_life passes min_periods (default len/2) on to the correlation");
+        let lag = n as usize;
+        unsafe {
+            PENDING = false;
+            CALLS += 1;
+        }
+        let c = if lag < len && lag < TMAX { unsafe { TABLE[lag] } } else { f64::NAN };
+        c.cast()
+    }
+
+    /// recorder for the Spearman branch of `vcorr`
+    fn vcorr_pearson_recorder<O, V2: IntoIterator<Item = T2>, T2: IsNone>(self, other: V2, min_periods: usize) -> O
+    where
+        T::Inner: Number,
+        T2::Inner: Number,
+        f64: Cast<O>,
+    {
+        let mut i = 0usize;
+        for v in self {
+            let x = if v.is_none() { f64::NAN } else { v.unwrap().f64() };
+            if i < TMAX {
+                unsafe {
+                    REC_A[i] = x;
+                }
+            }
+            i += 1;
+        }
+        let mut j = 0usize;
+        for v in other {
+            let x = if v.is_none() { f64::NAN } else { v.unwrap().f64() };
+            if j < TMAX {
+                unsafe {
+                    REC_B[j] = x;
+                }
+            }
+            j += 1;
+        }
+        unsafe {
+            REC_LEN_A = i;
+            REC_LEN_B = j;
+            REC_MP = min_periods;
+            CALLS += 1;
+            REC_RET.cast()
+        }
+    }
+
+    /// recorder for the Sigma method of `winsorize`
+    fn vmean_var_recorder(self, min_periods: usize) -> (f64, f64)
+    where
+        T::Inner: Number,
+    {
+        assert!(min_periods == 2, "winsorize(Sigma): mean and variance are computed with min_periods 2");
+        let mut i = 0usize;
+        for v in self {
+            let x = if v.is_none() { f64::NAN } else { v.unwrap().f64() };
+            let want = if i < TMAX { unsafe { W_DATA[i] } } else { f64::NAN };
+            assert!(same_f64(x, want), "winsorize(Sigma): mean and variance are computed over the input itself");
+            i += 1;
+        }
+        assert!(i == unsafe { W_LEN }, "winsorize(Sigma): mean and variance are computed over the whole input");
+        unsafe {
+            CALLS += 1;
+            (W_LO, W_HI)
+        }
+    }
+}
+impl<I: IntoIterator<Item = T>, T: IsNone> StubAgg<T> for I {}
+
+/// Stand-in for `tea_map::MapValidBasic<T>::vshift` (half_life harnesses with a symbolic table only): records
+/// the lag and hands the unshifted iterator on; the correlation oracle picks the lag up from the record.
+/// Reason (measured): the real `vshift` returns one of four boxed iterator types; with a symbolic lag CBMC has to
+/// explore all of them at every `next()` inside three nested loops (N = 2: 460 s, N = 5: no answer in 600 s).
+pub trait StubMap<T: IsNone>: TrustedLen<Item = T> + Sized {
+    fn vshift_recorder<'a>(self, n: i32, value: Option<T>) -> Box<dyn TrustedLen<Item = T> + 'a>
+    where
+        T: Clone + 'a,
+        Self: 'a,
+    {
+        assert!(value.is_none(), "half_life shifts with the null fill value");
+        assert!(!unsafe { PENDING }, "every shifted copy is consumed by exactly one correlation");
+        assert!(TrustedLen::len(&self) == unsafe { SERIES_LEN }, "half_life shifts the series itself");
+        unsafe {
+            PENDING = true;
+            PENDING_LAG = n;
+        }
+        Box::new(self)
+    }
+}
+impl<T: IsNone, I: TrustedLen<Item = T>> StubMap<T> for I {}
+
+/// Stand-ins for default methods of `tea_agg::VecAggValidExt<T>`.
+pub trait StubVecAgg<T: IsNone>: Vec1View<T> {
+    /// recorder for the Quantile method of `winsorize`: first call q, second call 1-q, both Linear
+    fn vquantile_recorder(&self, q: f64, method: QuantileMethod) -> TResult<f64>
+    where
+        T: Cast<f64>,
+        T::Inner: Number,
+    {
+        assert!(matches!(method, QuantileMethod::Linear), "winsorize(Quantile): linear interpolation");
+        check_is_input(self, false);
+        let call = unsafe { CALLS };
+        unsafe {
+            CALLS += 1;
+        }
+        let wq = unsafe { W_Q };
+        if call == 0 {
+            assert!(q == wq, "winsorize(Quantile): the lower bound is the q-quantile");
+            Ok(unsafe { W_LO })
+        } else {
+            assert!(call == 1, "winsorize(Quantile): exactly two quantiles are computed");
+            assert!(q == 1. - wq, "winsorize(Quantile): the upper bound is the (1-q)-quantile");
+            Ok(unsafe { W_HI })
+        }
+    }
+
+    /// recorder for the Median method of `winsorize`: first call on the input (answer: median), second call on
+    /// the absolute deviations from that median (answer: MAD)
+    fn vmedian_recorder(&self) -> f64
+    where
+        T: Cast<f64>,
+        T::Inner: Number,
+    {
+        let call = unsafe { CALLS };
+        unsafe {
+            CALLS += 1;
+        }
+        if call == 0 {
+            check_is_input(self, false);
+            unsafe { W_LO }
+        } else {
+            assert!(call == 1, "winsorize(Median): exactly two medians are computed");
+            check_is_input(self, true);
+            unsafe { W_HI }
+        }
+    }
+}
+impl<V: Vec1View<T>, T: IsNone> StubVecAgg<T> for V {}
+
+/// the view handed to a recorder holds the harness input (or, `dev`, its absolute deviations from W_LO)
+fn check_is_input<T: IsNone + Cast<f64>, V: Vec1View<T> + ?Sized>(v: &V, dev: bool) {
+    let n = unsafe { W_LEN };
+    assert!(v.len() == n, "winsorize: the bound is computed over the whole input");
+    let med = unsafe { W_LO };
+    let mut i = 0usize;
+    while i < n {
+        let x: f64 = v.get(i).unwrap().cast();
+        let d = unsafe { W_DATA[i] };
+        if dev {
+            assert!(same_f64(x, (d - med).abs()), "winsorize(Median): the second median is taken over |x - median|");
+        } else {
+            assert!(same_f64(x, d), "winsorize: the bound is computed over the input itself");
+        }
+        i += 1;
+    }
+}
+
+// ---------------------------------------------------------------------------------------------
+// half_life
+// ---------------------------------------------------------------------------------------------
+
+/// a null-free series of length N (its values are irrelevant under the oracle)
+fn ramp<const N: usize>() -> Vec<f64> {
+    let mut v = Vec::with_capacity(N);
+    let mut i = 0usize;
+    while i < N {
+        v.push((i + 1) as f64);
+        i += 1;
+    }
+    v
+}
+
+/// symbolic min_periods: omitted or 1..=N+1
+fn any_mp<const N: usize>() -> Option<usize> {
+    if kani::any() {
+        None
+    } else {
+        let m: usize = kani::any();
+        kani::assume(m >= 1 && m <= N + 1);
+        Some(m)
+    }
+}
+
+fn run_half_life<const N: usize>(v: &Vec<f64>, mp: Option<usize>) -> usize {
+    unsafe {
+        SERIES_LEN = N;
+        EXPECT_MP = mp.unwrap_or(N / 2);
+        CALLS = 0;
+        PENDING = false;
+    }
+    let r = v.half_life(mp);
+    assert!(!unsafe { PENDING }, "half_life: no shifted copy left unused");
+    r
+}
+
+/// (any) arbitrary autocorrelation table, incl. NaN and infinities
+fn half_life_any<const N: usize>() {
+    let mut l = 1usize;
+    while l < N {
+        let c: f64 = kani::any();
+        unsafe {
+            TABLE[l] = c;
+        }
+        l += 1;
+    }
+    let v = ramp::<N>();
+    let r = run_half_life::<N>(&v, any_mp::<N>());
+    if N < 2 {
+        assert!(r == 0, "half_life: 0 for a series shorter than two");
+    } else {
+        assert!(r >= 1, "half_life: at least 1 for a series of two or more");
+        assert!(r <= N - 1, "half_life: at most len-1");
+    }
+}
+
+/// (tie) table above 0.5 exactly up to lag `lstar`, `<= 0.5` or NaN afterwards
+fn half_life_tie<const N: usize>(lstar: usize) -> (usize, bool, bool) {
+    let (mut nan, mut tie) = (false, false);
+    let mut l = 1usize;
+    while l < N {
+        let c: f64 = kani::any();
+        if l <= lstar {
+            kani::assume(c > 0.5);
+        } else {
+            kani::assume(!(c > 0.5));
+            nan |= c.is_nan();
+            tie |= c == 0.5;
+        }
+        unsafe {
+            TABLE[l] = c;
+        }
+        l += 1;
+    }
+    let v = ramp::<N>();
+    (run_half_life::<N>(&v, any_mp::<N>()), nan, tie)
+}
+
+/// (first) every table "above 0.5 exactly up to lag L*, below afterwards", L* = 0..N-1, with the REAL `vshift`:
+/// the tables are concrete (0.75 / 0.25 — half_life looks at a correlation only through `<= 0.5`, `< 0.5`,
+/// `> 0.5` and `is_nan`), so that the lags stay concrete and CBMC follows one path through the boxed iterators.
+fn half_life_first<const N: usize>() {
+    let v = ramp::<N>();
+    let mp = any_mp::<N>();
+    let mut lstar = 0usize;
+    while lstar < N {
+        let mut l = 1usize;
+        while l < N {
+            unsafe {
+                TABLE[l] = if l <= lstar { 0.75 } else { 0.25 };
+            }
+            l += 1;
+        }
+        let r = run_half_life::<N>(&v, mp);
+        let want = if lstar + 1 < N - 1 { lstar + 1 } else { N - 1 };
+        assert!(r == want, "half_life: the first lag whose autocorrelation is not above 0.5, capped at len-1");
+        lstar += 1;
+    }
+}
+
+macro_rules! half_life_h {
+    (@covers small $nan:ident $tie:ident) => {};
+    (@covers big $nan:ident $tie:ident) => {
+        kani::cover!($nan, "a NaN autocorrelation after L*");
+        kani::cover!($tie, "an autocorrelation of exactly 0.5 after L*");
+    };
+    ($n:expr, $unw:expr, $c:ident, $any:ident, $first:ident, $tie:ident) => {
+        #[kani::proof]
+        #[kani::stub(std::fmt::format, crate::util::fmt_stub)]
+        #[kani::stub(tea_core::prelude::AggValidBasic::vcorr_pearson, StubAgg::vcorr_pearson_pending_oracle)]
+        #[kani::stub(tea_map::MapValidBasic::vshift, StubMap::vshift_recorder)]
+        #[kani::unwind($unw)]
+        pub fn $any() {
+            native_inert!();
+            half_life_any::<$n>();
+        }
+
+        #[kani::proof]
+        #[kani::stub(std::fmt::format, crate::util::fmt_stub)]
+        #[kani::stub(tea_core::prelude::AggValidBasic::vcorr_pearson, StubAgg::vcorr_pearson_lag_oracle)]
+        #[kani::unwind($unw)]
+        pub fn $first() {
+            native_inert!();
+            half_life_first::<$n>();
+        }
+
+        #[kani::proof]
+        #[kani::stub(std::fmt::format, crate::util::fmt_stub)]
+        #[kani::stub(tea_core::prelude::AggValidBasic::vcorr_pearson, StubAgg::vcorr_pearson_pending_oracle)]
+        #[kani::stub(tea_map::MapValidBasic::vshift, StubMap::vshift_recorder)]
+        #[kani::unwind($unw)]
+        pub fn $tie() {
+            native_inert!();
+            // L* a power of two (or 0): the bisection then only ever moves its upper end, which keeps this
+            // family independent of the upper-half bracket update checked by the `first` family
+            let lstar: usize = kani::any();
+            kani::assume(lstar < $n);
+            kani::assume(lstar == 0 || lstar == 1 || lstar == 2 || lstar == 4 || lstar == 8);
+            let (r, nan, tie) = half_life_tie::<$n>(lstar);
+            let want = if lstar + 1 < $n - 1 { lstar + 1 } else { $n - 1 };
+            assert!(r == want, "half_life: a tie (== 0.5) or NaN counts as not above 0.5; first such lag, capped at len-1");
+            half_life_h!(@covers $c nan tie);
+        }
+    };
+}
+
+// unwind bound (termination claim): the doubling loop runs at most floor(log2(N-1))+2 times, the bisection at
+// most ceil(log2 N) times, every other loop (oracle, shifted iterator, harness loops) at most N times;
+// N+4 covers all of them for N <= 9. An unwinding-assertion failure is reported as a violation (non-termination).
+half_life_h!(2, 6, small, c20_half_life_any_n2, c20_half_life_first_n2, c20_half_life_tie_n2);
+half_life_h!(3, 7, big, c20_half_life_any_n3, c20_half_life_first_n3, c20_half_life_tie_n3);
+half_life_h!(4, 8, big, c20_half_life_any_n4, c20_half_life_first_n4, c20_half_life_tie_n4);
+half_life_h!(5, 9, big, c20_half_life_any_n5, c20_half_life_first_n5, c20_half_life_tie_n5);
+half_life_h!(6, 10, big, c20_half_life_any_n6, c20_half_life_first_n6, c20_half_life_tie_n6);
+half_life_h!(7, 11, big, c20_half_life_any_n7, c20_half_life_first_n7, c20_half_life_tie_n7);
+half_life_h!(8, 12, big, c20_half_life_any_n8, c20_half_life_first_n8, c20_half_life_tie_n8);
+half_life_h!(9, 13, big, c20_half_life_any_n9, c20_half_life_first_n9, c20_half_life_tie_n9);
+
+#[kani::proof]
+#[kani::stub(std::fmt::format, crate::util::fmt_stub)]
+#[kani::stub(tea_core::prelude::AggValidBasic::vcorr_pearson, StubAgg::vcorr_pearson_pending_oracle)]
+#[kani::stub(tea_map::MapValidBasic::vshift, StubMap::vshift_recorder)]
+#[kani::unwind(5)]
+pub fn c20_half_life_any_n0_n1() {
+    native_inert!();
+    half_life_any::<0>();
+    half_life_any::<1>();
+}
+
+/// Native witnesses. Stubs exist only inside Kani, so a counterexample of the oracle harnesses cannot be
+/// replayed natively. These two harnesses pair a concrete series with the table of ITS OWN autocorrelations:
+/// under Kani the oracle answers from the table, in a native replay the real correlation computes the same
+/// classes from the data — the same assertion is evaluated in both worlds.
+fn half_life_witness<const N: usize>(data: [f64; N], table: [f64; N]) -> usize {
+    let mut l = 1usize;
+    while l < N {
+        unsafe {
+            TABLE[l] = table[l];
+        }
+        l += 1;
+    }
+    // None and Some(len/2) are the same request; the choice keeps one symbolic input for the replay generator
+    let mp: Option<usize> = if kani::any() { None } else { Some(N / 2) };
+    let v: Vec<f64> = data.to_vec();
+    #[cfg(feature = "playback")]
+    {
+        // native run: the table really is the autocorrelation of the data (class by class)
+        let mut l = 1usize;
+        while l < N {
+            let c: f64 = v.titer().vcorr_pearson(v.titer().vshift(l as i32, None), N / 2);
+            assert!(c.is_nan() == table[l].is_nan() && (c > 0.5) == (table[l] > 0.5) && (c < 0.5) == (table[l] < 0.5),
+                    "witness table does not describe the data");
+            l += 1;
+        }
+    }
+    run_half_life::<N>(&v, mp)
+}
+
+/// ramp 1..=5: autocorrelation 1 at lags 1..3, NaN (a single pair) at lag 4: the answer is 4 (= len-1)
+#[kani::proof]
+#[kani::stub(std::fmt::format, crate::util::fmt_stub)]
+#[kani::stub(tea_core::prelude::AggValidBasic::vcorr_pearson, StubAgg::vcorr_pearson_lag_oracle)]
+#[kani::unwind(9)]
+pub fn c20_half_life_witness_ramp_n5() {
+    let r = half_life_witness::<5>([1., 2., 3., 4., 5.], [1., 1., 1., 1., f64::NAN]);
+    assert!(r == 4, "half_life([1,2,3,4,5]): autocorrelation above 0.5 at lags 1..3, null at lag 4: expected 4");
+}
+
+/// autocorrelation 0.58, 0.85, 0.53, 0.70 at lags 1..4, 0.09 at lag 5, NaN (fewer than len/2 pairs) from lag 6:
+/// the first lag not above 0.5 is 5
+#[kani::proof]
+#[kani::stub(std::fmt::format, crate::util::fmt_stub)]
+#[kani::stub(tea_core::prelude::AggValidBasic::vcorr_pearson, StubAgg::vcorr_pearson_lag_oracle)]
+#[kani::unwind(13)]
+pub fn c20_half_life_witness_nan_midpoint_n9() {
+    let r = half_life_witness::<9>(
+        [4., 2., 6., 6., 7., 7., 8., 7., 9.],
+        [1., 0.58, 0.85, 0.53, 0.70, 0.09, f64::NAN, f64::NAN, f64::NAN],
+    );
+    assert!(r == 5, "half_life([4,2,6,6,7,7,8,7,9]): autocorrelation above 0.5 at lags 1..4, 0.09 at lag 5, null from lag 6: expected 5");
+}
+
+// ---------------------------------------------------------------------------------------------
+// winsorize
+// ---------------------------------------------------------------------------------------------
+
+/// half-integer in lo/2 ..= hi/2 or NaN
+fn half_or_nan(lo: i32, hi: i32) -> f64 {
+    if kani::any() { f64::NAN } else { small_i32(lo, hi) as f64 * 0.5 }
+}
+
+pub struct WFlags {
+    pub below: bool,
+    pub above: bool,
+    pub inside: bool,
+    pub null: bool,
+    pub one_sided: bool,
+    pub unbounded: bool,
+}
+
+/// input of length N registered with the recorders
+fn w_input<const N: usize>() -> [f64; N] {
+    let mut x = [0.0f64; N];
+    let mut i = 0usize;
+    while i < N {
+        x[i] = small_f64_or_nan(-9, 9);
+        unsafe {
+            W_DATA[i] = x[i];
+        }
+        i += 1;
+    }
+    unsafe {
+        W_LEN = N;
+        CALLS = 0;
+    }
+    x
+}
+
+/// clip semantics of `out` w.r.t. the interval [lo, hi] (a NaN bound = no bound on that side; lo <= hi)
+fn check_clip<const N: usize>(x: &[f64; N], out: Box<dyn TrustedLen<Item = f64> + '_>, lo: f64, hi: f64) -> WFlags {
+    let mut f = WFlags { below: false, above: false, inside: false, null: false, one_sided: lo.is_nan() != hi.is_nan(),
+                         unbounded: lo.is_nan() && hi.is_nan() };
+    assert!(out.len() == N, "winsorize: announces one value per input");
+    let mut y = [0.0f64; N];
+    let mut n = 0usize;
+    for v in out {
+        assert!(n < N, "winsorize: yields no more values than inputs");
+        y[n] = v;
+        n += 1;
+    }
+    assert!(n == N, "winsorize: yields one value per input");
+    let mut i = 0usize;
+    while i < N {
+        if x[i].is_nan() {
+            f.null = true;
+            assert!(y[i].is_nan(), "winsorize: null stays null");
+        } else if x[i] < lo {
+            f.below = true;
+            assert!(y[i] == lo, "winsorize: a value below the interval moves onto the lower bound");
+        } else if x[i] > hi {
+            f.above = true;
+            assert!(y[i] == hi, "winsorize: a value above the interval moves onto the upper bound");
+        } else {
+            f.inside = true;
+            assert!(y[i] == x[i], "winsorize: a value inside the interval is unchanged");
+        }
+        i += 1;
+    }
+    // order preserving
+    let mut i = 0usize;
+    while i < N {
+        let mut j = 0usize;
+        while j < N {
+            if !x[i].is_nan() && !x[j].is_nan() && x[i] <= x[j] {
+                assert!(y[i] <= y[j], "winsorize: order preserving on the non-null values");
+            }
+            j += 1;
+        }
+        i += 1;
+    }
+    f
+}
+
+/// the input must come back unchanged (degenerate branches)
+fn check_unchanged<const N: usize>(x: &[f64; N], out: Box<dyn TrustedLen<Item = f64> + '_>) {
+    assert!(out.len() == N, "winsorize (degenerate): announces one value per input");
+    let mut n = 0usize;
+    for v in out {
+        assert!(n < N, "winsorize (degenerate): yields no more values than inputs");
+        assert!(same_f64(v, x[n]), "winsorize (degenerate): input returned unchanged");
+        n += 1;
+    }
+    assert!(n == N, "winsorize (degenerate): yields one value per input");
+}
+
+fn winsorize_quantile<const N: usize>() -> WFlags {
+    let x = w_input::<N>();
+    // q in {0, 0.05, .., 0.5} or omitted (0.01)
+    let q: Option<f64> = if kani::any() { None } else { Some(small_i32(0, 10) as f64 * 0.05) };
+    let (lo, hi) = (half_or_nan(-20, 20), half_or_nan(-20, 20));
+    kani::assume(lo.is_nan() || hi.is_nan() || lo <= hi); // quantiles are monotone in q (C12)
+    unsafe {
+        W_Q = q.unwrap_or(0.01);
+        W_LO = lo;
+        W_HI = hi;
+    }
+    let v: Vec<f64> = x.to_vec();
+    let out = v.winsorize(WinsorizeMethod::Quantile, q);
+    assert!(out.is_ok(), "winsorize(Quantile): q in [0, 0.5] is accepted");
+    let f = check_clip::<N>(&x, out.unwrap(), lo, hi);
+    assert!(unsafe { CALLS } == 2, "winsorize(Quantile): two quantiles are computed");
+    f
+}
+
+fn winsorize_median<const N: usize>() -> (WFlags, bool) {
+    let x = w_input::<N>();
+    let k: Option<f64> = if kani::any() { None } else { Some(small_i32(0, 8) as f64 * 0.5) };
+    let (med, mad) = (half_or_nan(-20, 20), half_or_nan(0, 12));
+    unsafe {
+        W_LO = med;
+        W_HI = mad;
+    }
+    let v: Vec<f64> = x.to_vec();
+    let out = v.winsorize(WinsorizeMethod::Median, k);
+    assert!(out.is_ok(), "winsorize(Median): never an error");
+    let out = out.unwrap();
+    let kk = k.unwrap_or(3.);
+    if med.is_nan() {
+        check_unchanged::<N>(&x, out);
+        assert!(unsafe { CALLS } == 1, "winsorize(Median): no MAD when there is no median");
+        (WFlags { below: false, above: false, inside: false, null: false, one_sided: false, unbounded: false }, true)
+    } else {
+        let f = check_clip::<N>(&x, out, med - kk * mad, med + kk * mad);
+        assert!(unsafe { CALLS } == 2, "winsorize(Median): median, then median of the absolute deviations");
+        (f, false)
+    }
+}
+
+fn winsorize_sigma<const N: usize>() -> (WFlags, bool) {
+    let x = w_input::<N>();
+    let k: Option<f64> = if kani::any() { None } else { Some(small_i32(0, 8) as f64 * 0.5) };
+    let mean = half_or_nan(-20, 20);
+    // variance: NaN, 0, exactly the floor EPS, or the square of a half-integer
+    let sel: u8 = kani::any();
+    let var = match sel & 3 {
+        0 => f64::NAN,
+        1 => 0.0,
+        2 => EPS,
+        _ => {
+            let s = small_i32(1, 8) as f64 * 0.5;
+            s * s
+        },
+    };
+    unsafe {
+        W_LO = mean;
+        W_HI = var;
+    }
+    let v: Vec<f64> = x.to_vec();
+    let out = v.winsorize(WinsorizeMethod::Sigma, k);
+    assert!(out.is_ok(), "winsorize(Sigma): never an error");
+    let out = out.unwrap();
+    assert!(unsafe { CALLS } == 1, "winsorize(Sigma): one mean/variance computation");
+    let kk = k.unwrap_or(3.);
+    if mean.is_nan() || var.is_nan() || !(var > EPS) {
+        check_unchanged::<N>(&x, out);
+        (WFlags { below: false, above: false, inside: false, null: false, one_sided: false, unbounded: false }, true)
+    } else {
+        let std = var.sqrt();
+        let f = check_clip::<N>(&x, out, mean - kk * std, mean + kk * std);
+        (f, false)
+    }
+}
+
+macro_rules! winsorize_h {
+    (@covers full $f:ident) => {
+        kani::cover!($f.below && $f.above && $f.inside, "values below, inside and above the interval");
+        kani::cover!($f.null && $f.below, "a null next to a clipped value");
+    };
+    (@covers one $f:ident) => {
+        kani::cover!($f.below, "a value below the interval");
+        kani::cover!($f.above, "a value above the interval");
+        kani::cover!($f.null, "a null");
+    };
+    (@covers none $f:ident) => {};
+    ($($(#[$m:meta])* $q:ident, $med:ident, $sig:ident: $n:expr, $c:ident, $unw:expr);* $(;)?) => {$(
+        $(#[$m])*
+        #[kani::proof]
+        #[kani::stub(std::fmt::format, crate::util::fmt_stub)]
+        #[kani::stub(tea_agg::VecAggValidExt::vquantile, StubVecAgg::vquantile_recorder)]
+        #[kani::unwind($unw)]
+        pub fn $q() {
+            native_inert!();
+            let f = winsorize_quantile::<$n>();
+            winsorize_h!(@covers $c f);
+            kani::cover!(f.one_sided, "only one bound is non-null");
+            kani::cover!(f.unbounded, "both bounds null (no valid data): unchanged");
+        }
+
+        $(#[$m])*
+        #[kani::proof]
+        #[kani::stub(std::fmt::format, crate::util::fmt_stub)]
+        #[kani::stub(tea_agg::VecAggValidExt::vmedian, StubVecAgg::vmedian_recorder)]
+        #[kani::unwind($unw)]
+        pub fn $med() {
+            native_inert!();
+            let (f, degenerate) = winsorize_median::<$n>();
+            winsorize_h!(@covers $c f);
+            kani::cover!(degenerate, "no median (all null): unchanged");
+            kani::cover!(!degenerate && f.unbounded, "MAD null: unchanged");
+        }
+
+        $(#[$m])*
+        #[kani::proof]
+        #[kani::stub(std::fmt::format, crate::util::fmt_stub)]
+        #[kani::stub(tea_core::prelude::AggValidBasic::vmean_var, StubAgg::vmean_var_recorder)]
+        #[kani::unwind($unw)]
+        pub fn $sig() {
+            native_inert!();
+            let (f, degenerate) = winsorize_sigma::<$n>();
+            winsorize_h!(@covers $c f);
+            kani::cover!(degenerate, "mean/variance null or variance at the floor: unchanged");
+            kani::cover!(!degenerate, "variance above the floor: clipped");
+        }
+    )*};
+}
+
+winsorize_h!(
+    c20_winsorize_quantile_n0, c20_winsorize_median_n0, c20_winsorize_sigma_n0: 0, none, 4;
+    #[cfg(feature = "thorough")] c20_winsorize_quantile_n1, c20_winsorize_median_n1, c20_winsorize_sigma_n1: 1, one, 5;
+    c20_winsorize_quantile_n2, c20_winsorize_median_n2, c20_winsorize_sigma_n2: 2, one, 6;
+    #[cfg(feature = "thorough")] c20_winsorize_quantile_n3, c20_winsorize_median_n3, c20_winsorize_sigma_n3: 3, full, 7;
+    c20_winsorize_quantile_n4, c20_winsorize_median_n4, c20_winsorize_sigma_n4: 4, full, 8;
+);
+
+// ---------------------------------------------------------------------------------------------
+// Spearman = Pearson of the average ranks; ranks depend on the order relation only
+// ---------------------------------------------------------------------------------------------
+
+/// two Option<i32> series with the same null positions and the same order relation have identical ranks
+fn rank_relational<const N: usize>() -> (bool, bool) {
+    let a: [Option<i32>; N] = kani::any();
+    let b: [Option<i32>; N] = kani::any();
+    let (mut tie, mut null) = (false, false);
+    let mut i = 0usize;
+    while i < N {
+        kani::assume(a[i].is_none() == b[i].is_none());
+        null |= a[i].is_none();
+        let mut j = 0usize;
+        while j < N {
+            if let (Some(ai), Some(aj), Some(bi), Some(bj)) = (a[i], a[j], b[i], b[j]) {
+                kani::assume((ai < aj) == (bi < bj));
+                kani::assume((ai == aj) == (bi == bj));
+                tie |= i != j && ai == aj;
+            }
+            j += 1;
+        }
+        i += 1;
+    }
+    let (va, vb) = (a.to_vec(), b.to_vec());
+    let ra: Vec<f64> = va.vrank(false, false);
+    let rb: Vec<f64> = vb.vrank(false, false);
+    assert!(ra.len() == N && rb.len() == N, "vrank: one rank per element");
+    let mut i = 0usize;
+    while i < N {
+        assert!(same_f64(ra[i], rb[i]), "vrank: depends on the order relation only (invariant under increasing maps)");
+        i += 1;
+    }
+    (tie, null)
+}
+
+macro_rules! rank_h {
+    ($($(#[$m:meta])* $name:ident: $n:expr, $unw:expr);* $(;)?) => {$(
+        $(#[$m])*
+        #[kani::proof]
+        #[kani::stub(std::fmt::format, crate::util::fmt_stub)]
+        #[kani::unwind($unw)]
+        pub fn $name() {
+            let (tie, null) = rank_relational::<$n>();
+            kani::cover!(tie, "a tie");
+            kani::cover!(null, "a null");
+        }
+    )*};
+}
+
+rank_h!(
+    c20_rank_relational_n2: 2, 6;
+    c20_rank_relational_n3: 3, 7;
+    #[cfg(feature = "thorough")] c20_rank_relational_n4: 4, 8;
+);
+
+/// `vcorr(.., Spearman)` hands the two rank vectors and min_periods (default len/2) to Pearson, returns its answer
+fn spearman_wiring<const N: usize>() {
+    let a: [Option<i32>; N] = kani::any();
+    let b: [Option<i32>; N] = kani::any();
+    let mp = any_mp::<N>();
+    let ret: f64 = kani::any();
+    unsafe {
+        CALLS = 0;
+        REC_RET = ret;
+    }
+    let (va, vb) = (a.to_vec(), b.to_vec());
+    let r: Option<f64> = va.vcorr(&vb, mp, CorrMethod::Spearman);
+    let (la, lb, m, calls) = unsafe { (REC_LEN_A, REC_LEN_B, REC_MP, CALLS) };
+    assert!(calls == 1, "vcorr(Spearman): exactly one Pearson correlation");
+    assert!(la == N && lb == N, "vcorr(Spearman): Pearson sees one rank per element of each series");
+    assert!(m == mp.unwrap_or(N / 2), "vcorr(Spearman): min_periods (default len/2) is passed on");
+    let ra: Vec<f64> = va.vrank(false, false);
+    let rb: Vec<f64> = vb.vrank(false, false);
+    let mut i = 0usize;
+    while i < N {
+        let (xa, xb) = unsafe { (REC_A[i], REC_B[i]) };
+        assert!(same_f64(xa, ra[i]), "vcorr(Spearman): first Pearson argument is vrank(self)");
+        assert!(same_f64(xb, rb[i]), "vcorr(Spearman): second Pearson argument is vrank(other)");
+        i += 1;
+    }
+    let want: Option<f64> = if ret.is_nan() { None } else { Some(ret) };
+    assert!(r == want, "vcorr(Spearman): returns the Pearson correlation of the ranks");
+}
+
+macro_rules! spearman_h {
+    ($($(#[$m:meta])* $name:ident: $n:expr, $unw:expr);* $(;)?) => {$(
+        $(#[$m])*
+        #[kani::proof]
+        #[kani::stub(std::fmt::format, crate::util::fmt_stub)]
+        #[kani::stub(tea_core::prelude::AggValidBasic::vcorr_pearson, StubAgg::vcorr_pearson_recorder)]
+        #[kani::unwind($unw)]
+        pub fn $name() {
+            native_inert!();
+            spearman_wiring::<$n>();
+        }
+    )*};
+}
+
+spearman_h!(
+    c20_spearman_wiring_n0: 0, 4;
+    c20_spearman_wiring_n2: 2, 6;
+    #[cfg(feature = "thorough")] c20_spearman_wiring_n3: 3, 7;
+);
